@@ -170,8 +170,8 @@ def _flop():
 
 def _flop_qn():
     return {"name": "f2", "nodes": [["a", "input", [], False], ["clk", "input", [], False], ["qb", "buf", [], True],
-                                    ["u0_qn", "nand", ["a", "qb"], True], ["u0_q", "not", ["u0_qn"], True], ["u0_clk", "buf", ["clk"], False]],
-            "bbtypes": [["ffq", ["clk", "d"], ["q", "qn"]]], "insts": [["u0", 0, {"clk": "u0_clk", "d": "u0_qn", "q": "qb"}]]}
+                                    ["u0_qn", "nand", ["a", "qb"], True], ["w", "not", ["u0_qn"], True]],
+            "bbtypes": [["ffq", ["clk", "d"], ["q", "qn"]]], "insts": [["u0", 0, {"clk": "clk", "d": "u0_qn", "q": "qb"}]]}
 
 
 def core(ctx):
